@@ -2205,6 +2205,11 @@ class Interp(object):
                 return v        # a symbolic count: integral by assumption
             if isinstance(v, (tuple, list, dict)) or v is None:
                 raise PyRaise('TypeError')
+            arr = getattr(v, 'a', None)
+            if arr is not None and getattr(arr, 'size', 0) == 1:
+                # a NumPy scalar / one-element array
+                return self.py_builtin('int', [arr.ravel()[0]], {}, node,
+                                       scope, func)
             raise Undecided('int(%r)' % (v,))
         if name == 'float' or name == 'complex':
             v = args[0]
